@@ -167,6 +167,8 @@ ParameterList DownhillSimplexMethod::getPSum()
     {
       sum += simplex_[i][j].getValue();
     }
+    // This is a sum of coordinates, not a point: it is not bound to the parameter's constraint.
+    pSum[j].removeConstraint();
     pSum[j].setValue(sum);
   }
   return pSum;
